@@ -41,6 +41,7 @@ type vTunnel struct {
 	ownerDone bool
 	rounds    int
 	maxKVSize int
+	skipTransition bool // the device module is already active (a later transfer in the same session)
 }
 
 type vRespBuf struct {
@@ -86,7 +87,9 @@ func (t *vTunnel) round() {
 		if name == "active" {
 			var a bool
 			if cbor.Unmarshal(stream, &a) == nil {
-				_ = t.device.Transition(a)
+				if !t.skipTransition {
+					_ = t.device.Transition(a)
+				}
 				pending = append(pending, &vRespBuf{t: t, name: "active"})
 				pending[len(pending)-1].buf.Write([]byte{0xf5})
 			}
@@ -404,4 +407,87 @@ func VerifC17_SendDataEveryMTU() {
 		}
 	}
 	verif.Reached("end")
+}
+
+// after a download that failed on a corrupted chunk, a second download in the same
+// session (same device module instance, no new activation) still arrives identical
+func VerifC17_DownloadAfterFailedTransfer() {
+	verif.NoPanic()
+	verif.FSReset()
+	verif.Bound("C17 second download", "one device Download module; first transfer: announced length 4, one good chunk of 2 symbolic bytes, then a truncated data chunk (corrupted in transit) or a good chunk followed by a digest mismatch; second transfer: honest file of 1..3 symbolic bytes under another name")
+	var elog bytes.Buffer
+	device := &Download{NameToPath: func(n string) string { return "/dst/" + n }, ErrorLog: &elog}
+	verif.Assert(device.Transition(true) == nil, "activate")
+	var answers []vKV
+	feed := func(name string, val []byte) error {
+		var bufs []*vRespBuf
+		respond := func(n string) io.Writer {
+			r := &vRespBuf{name: n}
+			bufs = append(bufs, r)
+			return &r.buf
+		}
+		err := device.Receive(context.Background(), name, bytes.NewReader(val), respond, func() {})
+		for _, r := range bufs {
+			answers = append(answers, vKV{r.name, r.buf.Bytes()})
+		}
+		return err
+	}
+	enc := func(v any) []byte {
+		b, err := cbor.Marshal(v)
+		verif.Assert(err == nil, "harness: encode")
+		return b
+	}
+	good := verif.Bytes("first", 2)
+	verif.Assert(feed("name", enc("first.bin")) == nil && feed("length", enc(4)) == nil, "first announcement")
+	verif.Assert(feed("sha-384", enc(verif.Bytes("claimeddigest", 48))) == nil, "first digest")
+	verif.Assert(feed("data", enc(good)) == nil, "first chunk")
+	if verif.Choose("failure", 2) == 0 {
+		// a chunk that arrives damaged: a byte string head claiming more bytes than follow
+		_ = feed("data", []byte{0x42, verif.U8("junk")})
+	} else {
+		// completes with a digest that cannot match (arbitrary claimed digest vs ideal hash)
+		_ = feed("data", enc(verif.Bytes("first2", 2)))
+	}
+	_, firstExists := verif.FSFile("/dst/first.bin")
+	n := 1 + verif.Choose("size2", 3)
+	second := verif.Bytes("second", n)
+	owner := &DownloadContents[*bytes.Reader]{Name: "second.bin", Contents: bytes.NewReader(second), MustDownload: true}
+	t := &vTunnel{owner: owner, device: device, modName: "fdo.download", mtu: 1300}
+	// the module is already active: the owner's "active" message does not re-run Transition
+	t.skipTransition = true
+	t.run(6)
+	f, exists := verif.FSFile("/dst/second.bin")
+	if t.ownerErr != nil {
+		verif.Note("second download owner error: " + t.ownerErr.Error() + " | device log: " + elog.String())
+	}
+	if t.deviceErr != nil {
+		verif.Note("second download device error: " + t.deviceErr.Error())
+	}
+	verif.Assert(t.ownerErr == nil && t.deviceErr == nil && t.ownerDone, "the second, honest download completes")
+	verif.Assert(exists && verif.BytesEq(f, second), "and its file arrives bit-identical although an earlier transfer in the session failed")
+	if firstExists {
+		ff, _ := verif.FSFile("/dst/first.bin")
+		verif.Assert(len(ff) == 4, "a first file exists only if it was completed")
+	}
+	verif.Reached("end")
+}
+
+// fdo.wget owner side: the device's report is accepted only if it matches the announced length
+func VerifC17_WgetOwnerDone() {
+	verif.NoPanic()
+	verif.Expect("accepted")
+	verif.Expect("refused")
+	verif.Bound("C17 wget owner", "WgetCommand with announced Length = any int64 >= 0 (0 = not announced); device report 'done' = any int64")
+	l := verif.I64("length")
+	verif.Assume(l >= 0)
+	w := &WgetCommand{Name: "f", Length: l}
+	n := verif.I64("reported")
+	b, err := cbor.Marshal(n)
+	verif.Assert(err == nil, "encode")
+	if err := w.HandleInfo(context.Background(), "done", bytes.NewReader(b)); err != nil {
+		verif.Reached("refused")
+		return
+	}
+	verif.Assert(l == 0 || n == l, "the owner accepts the device's report only if the received length equals the announced length")
+	verif.Reached("accepted")
 }
